@@ -96,11 +96,12 @@ pub const TAILS: [&str; 10] = ["", "x", "♠", "0", "ss", "!", "-highlighted", "
 /// "interesting" strings: every ASCII character that is not whitespace (NUL and the other control
 /// characters, DEL, all punctuation, digits and letters) and a selection of non-ASCII ones that are
 /// not White_Space either (C1 controls, soft hyphen, combining mark, zero-width and bidi marks,
-/// word joiner, BOM, replacement character, variation selector, private use, a playing-card code
-/// point, blank-looking letters, the last scalar value).
+/// word joiner, BOM, replacement character, variation selector, private use, the control picture for NUL,
+/// blank-looking letters; deliberately NOT a playing-card code point, which a parser might one day
+/// accept on purpose — see JUNK, the last scalar value).
 const EXTRA_CHARS: [char; 26] = [
     '\u{80}', '\u{84}', '\u{86}', '\u{9F}', '\u{A1}', '\u{AD}', '\u{300}', '\u{61C}', '\u{180E}', '\u{200B}', '\u{200C}', '\u{200D}', '\u{200E}', '\u{200F}', '\u{2060}', '\u{FEFF}', '\u{FFFD}',
-    '\u{FE0F}', '\u{E000}', '\u{1F0A1}', '\u{10FFFF}', '\u{2800}', '\u{3164}', '\u{FFA0}', '\u{1D159}', '\u{E0020}',
+    '\u{FE0F}', '\u{E000}', '\u{2400}', '\u{10FFFF}', '\u{2800}', '\u{3164}', '\u{FFA0}', '\u{1D159}', '\u{E0020}',
 ];
 pub const EXT_CHARS: usize = 122 + 26;
 pub fn ext_char(i: usize) -> char {
